@@ -23,6 +23,7 @@ import re, os
 from vlib import Rng
 from widegen import STRS, INT_CONS, SIZE_CONS, ALPHA
 
+EXTRA = os.path.join(os.path.dirname(os.path.dirname(os.path.abspath(__file__))), "harness", "moddrv_wide.inc")
 ALL_FEATURES = ["ext", "default", "set", "recursion", "real", "time", "oid", "strings", "bits", "enum"]
 
 
@@ -401,13 +402,17 @@ def classify(module, typename, syntax, status, stderr="", facts=()):
     if syntax == "xer" and status == "NL":
         return "C01-xer-trailing-newline"
     per_oer = syntax in ("cper", "coer")
+    # asn_OP_SET has no uper/oer encoder and decoder.  At the top level asn_encode answers ENOENT.  Below the top level
+    # the VALUE must contain a SET value (fact set_nested): callers that test the pointer (SEQUENCE_encode_oer root
+    # members, uper_encode / oer_encode entered through an open type of an extension addition) fail with EBADF,
+    # the others call the NULL pointer.
     if per_oer and status == "ENCFAIL:ENOENT" and top_kind(module, typename) == "SET":
         return "C01-set-no-per-oer"
-    if per_oer and status == "CRASH" and nested_sets(module, typename) and "SEGV" in stderr or "null pointer" in stderr:
-        if per_oer and nested_sets(module, typename) and any(f in stderr for f in NULL_CALL_FRAMES):
-            return "C01-set-nested-null-codec"
-    if syntax == "coer" and status == "ENCFAIL:EBADF" and "SEQUENCE" in nested_sets(module, typename):
+    if per_oer and status == "ENCFAIL:EBADF" and "set_nested" in facts and nested_sets(module, typename):
         return "C01-set-no-per-oer"
+    if per_oer and status == "CRASH" and "set_nested" in facts and nested_sets(module, typename) \
+            and ("SEGV" in stderr or "null pointer" in stderr) and any(f in stderr for f in NULL_CALL_FRAMES):
+        return "C01-set-nested-null-codec"
     if syntax == "cper" and status == "NEQ" and "bits_trail0" in facts:
         return "C01-uper-bitstring-trailing-zero"
     if status == "NEQ" and "bool_dfl_raw" in facts and syntax in ("cper", "xer", "cxer"):
